@@ -819,6 +819,10 @@ void tickit_window_flush(TickitWindow *win)
     for(int i = 0; i < damage_count; i++) {
       TickitRect *rect = &rects[i];
 
+      /* A hidden root window paints nothing, like any other hidden window */
+      if(!root_window->is_visible)
+        continue;
+
       /* The root window may have shrunk (terminal resize) since this damage
        * was recorded; never hand out more than the window's current area */
       if(!tickit_rect_intersect(rect, rect, &(TickitRect){
